@@ -352,6 +352,9 @@ def gen_history(rng, cfg, kind):
     nops = rng.randrange(30, 121)
     share_at = rng.randrange(nops // 5, nops // 2) if share else -1
     shared_done = False
+    watch = 0                # after sharing: look at the disk after each of the next few changes
+    # beyond the 64 KiB limit of the format: must be refused, or else read back (a few histories)
+    over_at = rng.randrange(nops) if cfg["ea_inode"] and kind == "drv" and rng.random() < 0.08 else -1
     reopen_at = set(rng.sample(range(5, nops), min(nops - 5, rng.choice([2, 3, 3, 4, 5]))))
 
     def bump(d, k):
@@ -404,6 +407,28 @@ def gen_history(rng, cfg, kind):
         bump("sizes", size_class(n, cfg))
         names[f][nm] = n
 
+    # edge fill: unaligned small values, then one value sized to end within a few bytes of the
+    # capacity of the inode body (or of the block when there is no body space)
+    for f in range(nfiles):
+        if f in inline_files or (share and f == 1) or rng.random() > 0.4:
+            continue
+        cap = ibody_cap(cfg) if cfg["isize"] > 128 else bs - 36
+        used = 0
+        for k in range(rng.choice([1, 2, 3])):
+            n = rng.choice([1, 2, 3, 5, 6, 7, 9, 10, 11])
+            emit_set(f, b"user.e%d" % k, n)
+            used += 20 + pad4(n)
+        n = cap - used - 20 + rng.choice([-5, -4, -3, -2, -1, 0, 0, 1, 2, 3, 4])
+        if n > 0:
+            emit_set(f, b"user.e9", n)
+            bump("ops", "edge_fill")
+        if rng.random() < 0.5:
+            lines.append("get %d user.e9" % f)
+            lines.append("list %d" % f)
+        else:
+            lines.append("xclose %d" % f)
+            opened[f] = None
+
     for opno in range(nops):
         if opno == share_at and not shared_done:
             # f0 needs an xattr block: force one value that cannot live in the inode body
@@ -421,6 +446,7 @@ def gen_history(rng, cfg, kind):
             for f in range(nfiles):
                 opened[f] = None
             lines.append("#reopen")
+            watch = 8
             continue
         if opno in reopen_at:
             for f in range(nfiles):
@@ -432,6 +458,10 @@ def gen_history(rng, cfg, kind):
         f = rng.choice(cand)
         present = list(names[f])
         r = rng.random()
+        if opno == over_at:
+            emit_set(f, b"user.over64k", rng.choice([65537, 65540, 70000]))
+            bump("ops", "set_over_64K")
+            continue
         if r < 0.24 or not present:
             op = "set_new"
             nm = rng.choice(pools[f]) if rng.random() < 0.8 else gen_name(rng, safe)
@@ -469,7 +499,10 @@ def gen_history(rng, cfg, kind):
             op = "get_missing"
             ensure_open(f)
             nm = gen_name(rng, safe) if rng.random() < 0.5 else rng.choice(pools[f])
-            lines.append("get %d %s" % (f, enc(nm)))
+            if nm in garbage[f] and not opened[f]:
+                lines.append("list %d" % f)
+            else:
+                lines.append("get %d %s" % (f, enc(nm)))
         elif r < 0.90:
             op = "list"
             ensure_open(f)
@@ -485,6 +518,11 @@ def gen_history(rng, cfg, kind):
                 opened[f] = None
             ensure_open(f)
         bump("ops", op)
+        if watch and f < 2 and op in ("set_new", "replace", "rm"):
+            watch -= 1
+            for g in range(nfiles):
+                opened[g] = None
+            lines.append("#reopen")
     # final read-back of everything through the API
     lines.append("#reopen")
     for f in range(nfiles):
@@ -1016,10 +1054,12 @@ def inspect(path, model, unknown):
                         except I.FormatError:
                             v("ea_inode-bad-reference", "inode %d %s: e_value_inum %d out of range" %
                               (ino, enc(full), inum))
+                            disk[key] = None
                             continue
                         if not ok or not (vi.flags & I.FL_EA_INODE) or vi.links == 0:
                             v("ea_inode-bad-reference", "inode %d %s: value inode %d allocated=%s flags=%x links=%d" %
                               (ino, enc(full), inum, ok, vi.flags, vi.links))
+                            disk[key] = None
                             continue
                         if vi.size != e["value_size"]:
                             v("ea_inode-size", "inode %d %s: value inode %d i_size %d, e_value_size %d" %
@@ -1028,6 +1068,7 @@ def inspect(path, model, unknown):
                             val = img.read_file(vi)[0][:e["value_size"]]
                         except I.FormatError as ex:
                             v("ea_inode-unreadable", "value inode %d: %s" % (inum, ex))
+                            disk[key] = None
                             continue
                         if inum not in checked_ea:
                             checked_ea.add(inum)
@@ -1074,7 +1115,7 @@ def inspect(path, model, unknown):
                     if key not in disk:
                         v("ondisk-differs missing", "inode %d: %s (%d bytes) not on disk (or under another index)" %
                           (ino, enc(n), len(x)))
-                    elif n not in unk and disk[key] != x:
+                    elif n not in unk and disk[key] is not None and disk[key] != x:
                         v("ondisk-differs value", "inode %d: %s on disk %d bytes crc %08x (%s), model %d bytes crc %08x" %
                           (ino, enc(n), len(disk[key]), _crc(disk[key]), place.get((ino, n)), len(x), _crc(x)))
                 for key in disk:
@@ -1210,6 +1251,9 @@ def execute(ctx, cfg, kind, variant, lines, workdir, final=True):
         res = inspect(img, j.model, j.unknown)
         for k, what in res["viol"]:
             j.v(k, what)
+        if os.environ.get("C15_TRACE"):
+            print("LOOK", res["stats"], sorted((k[0], enc(k[1])[:20], p) for k, p in res["place"].items()),
+                  [k for k, _ in res["viol"]])
         for key, p in res["place"].items():
             if key[0] not in j.model:
                 continue
@@ -1405,7 +1449,10 @@ def main(tier, seed, replay=None, scale=1.0):
         rep.count("script_lines", r["nlines"])
         rep.count("histories_%s_%s" % (r["kind"], r["variant"]))
         rep.add("configs", r["info"]["config"])
-        rep.add("inode_sizes", CONFIGS[r["idx"] % len(CONFIGS)]["isize"])
+        cf = CONFIGS[r["idx"] % len(CONFIGS)]
+        rep.add("inode_sizes", cf["isize"])
+        rep.add("feature_sets", "bs=%d ea_inode=%d metadata_csum=%d inline_data=%d" %
+                (cf["bs"], cf["ea_inode"], cf["csum"], cf["inline"]))
         for k, v in st["ops"].items():
             rep.count("op_" + k, v)
         for k, v in st["prefix"].items():
